@@ -101,6 +101,11 @@ DOC_SHAPES = [
     ("/**\n{i} * a{n}\n{i} *\n{i} *   b\n{i} */", "a{n}\n\n  b"),
     ("/**\n{i} * only {n}\n{i} */", "only {n}"),
     ("/** café {n} */", "café {n}"),
+    # continuation lines indented with different kinds of whitespace: the dedent removes as many characters as the first
+    # content line is indented, whatever they are
+    ("/**\n\t * mixed {n}\n  * second\n */", "mixed {n}\nsecond"),
+    ("/**\n\tplain {n}\n    more\n */", "plain {n}\n   more"),
+    ("/**\n  * sp {n}\n\t * tab\n\t\t* deeper\n */", "sp {n}\ntab\ndeeper"),
 ]
 
 
@@ -123,6 +128,7 @@ GAPS = [
     [("nl",), ("doc", 0), ("sp", " "), ("bc", "/* c */"), ("nl",)], [("doc", 0), ("nl",), ("lc", "// c"), ("nl",)],
     [("sp", "\r"), ("nl",)], [("sp", "\t")], [("doc", 4), ("nl",)], [("bc", "/* a\n b */"), ("nl",)], [("doc", 2), ("nl",)],
     [("doc", 0), ("bc", "/*\n*/")],
+    [("doc", 7), ("nl",)], [("doc", 8), ("nl",)],
 ]
 
 
